@@ -114,6 +114,8 @@ def run_history(arg):
         for step, op in enumerate(hist):
             it, al = objs[op[0]]; kind = op[1]; before = state(it, al); it.globals["vp_thrown"].cells[0] = 0
             faults.enabled = kind in ("read", "fit", "convolve"); faults.fired = False      # the functions extracted with R31 (allocation may throw)
+            # write_key's update of an existing key: its one allocation sits in a try block kept by R22e (the append path and remove_key have their try blocks stripped: no injection there)
+            if kind == "key" and any(k_ == op[2] for k_, v_ in (before[1] if before[0] == "empty" else before[1].get("aux", []) if before[0] == "table" else [])): faults.enabled = True
             where = "step %d %s" % (step, "o%d.%s(%s)" % (op[0], kind, ",".join(str(x) for x in op[2:])))
             expect = None          # "ok" / "fail" / None
             try:
@@ -234,7 +236,7 @@ def main():
     hists = list(dict.fromkeys(hists)); t0 = time.time()
     with mp.Pool(min(vlib.NCORES, 16)) as pool:
         res = pool.map(run_history, [(h, None) for h in hists], chunksize=8)
-        # every position of one injected allocation failure (std::bad_alloc from allocate<T>) in read / fit / convolve
+        # every position of one injected allocation failure (std::bad_alloc from allocate<T>) in read / fit / convolve / update of an existing key
         inj = []
         for h, r in zip(hists, res):
             if len(r[0]) > 4 and r[0][1] and (len(h) <= 2 or (len(h) == 3 and (thorough or hsh(h) % 4 == 0)) or (len(h) > 3 and thorough and hsh(h) % 10 == 0)):
@@ -259,7 +261,7 @@ def main():
     rep.samples += [o[0][:200] for o in flat[40:43]]
     rep.extra["evaluations"] = len(hists); rep.extra["distinct_nontrivial"] = len([h for h in hists if len(h) >= 2])
     rep.extra["rule"] = "one evaluation = one operation history executed from the extracted code with validity, failure-atomicity and allocator-reachability checked after every operation and the destructor at the end; non-trivial = at least two operations; histories are distinct tuples"
-    rep.assume("PARTIAL: the memory back end and the stacking constructor are NOT covered; operator== IS (judged against field-by-field equality of orders, axis lengths, knots and coefficients); moves between the two objects ARE (move constructor, move assignment, self-move; the allocator member travels with the storage: the ownership of the live blocks is moved / swapped by the check exactly where the code moves / swaps the allocator); allocation failure is injected only in read_fits_core, fit and convolve (R31: allocate<T> may throw); in the key-store functions the catch(...) handlers are dropped (R22) and permuteDimensions / write_fits_core use new[] only - no failure is injected there; exceptions are a ghost flag + early return (R7)",
+    rep.assume("PARTIAL: the memory back end and the stacking constructor are NOT covered; operator== IS (judged against field-by-field equality of orders, axis lengths, knots and coefficients); moves between the two objects ARE (move constructor, move assignment, self-move; the allocator member travels with the storage: the ownership of the live blocks is moved / swapped by the check exactly where the code moves / swaps the allocator); allocation failure is injected only in read_fits_core, fit, convolve (R31: allocate<T> may throw) and in write_key's update of an existing key (R22e: the try block whose handler only throws keeps its meaning); in the rest of the key-store functions (write_key's append path, remove_key) the catch(...) handlers are dropped (R22) and permuteDimensions / write_fits_core use new[] only - no failure is injected there; exceptions are a ghost flag + early return (R7)",
                "BOUNDED: enumerated / random histories over a fixed alphabet: reads of two valid files, two corrupt files, a missing file and a file written earlier in the history; fits (1-d, 2-d, invalid arguments, fitter failure); key insertion / rejection / removal; convolution (valid arguments only); valid and invalid permutations; writes",
                "cfitsio (specs/fitsmodel.py), the C fitter (glamfit_complex returns success after writing the coefficients, or a failure code without writing), cholmod and convoluted_blossom are assumed contracts supplied by the interpreter",
                "the oracle for outcomes: reads of valid files into empty tables, fits of valid problems into empty tables, valid keys, valid convolutions / permutations and writes of populated tables must succeed; reads into populated tables, corrupt / missing files, invalid fit arguments, fitter failure, reserved keys, invalid permutations and writes of empty tables must fail; a fit into a populated table may refuse or replace")
